@@ -10,6 +10,7 @@
 -/
 import BS.Generated.Core
 import BS.Impl.World
+import BS.Impl.CatchUpPlan
 
 open BS BS.Impl BS.Gen
 
@@ -135,6 +136,18 @@ def main : IO Unit := do
       (fun (n, _, d) => do
         let len ← dataLenLines d
         if n ≥ len then pure none else pure (lineOffset d n))
+  -- add_missing_data: sources / caches as sessions with consistent line counts
+  for p in [0, 4] do
+    let mk := fun (nlines nsec : Nat) (lt : Option Nat) =>
+      let es : List IEntry := (List.range nsec).map fun i => ⟨10 + 100000 * i, i * metaSize p + (i * (nlines / (nsec + 1))) * lineSize p⟩
+      ({ p := p, hdrLen := 0, ihdrLen := 4, dataLen := nsec * metaSize p + nlines * lineSize p, entries := es,
+         lastFull := es.getLast?.map (·.ts), lastTime := lt } : DataSess)
+    let srcs := [mk 0 0 none, mk 1 1 (some 10), mk 7 1 (some 16), mk 10 2 (some 100009), mk 25 3 (some 200020)]
+    let caches := [mk 0 0 none, mk 1 1 (some 12), mk 2 1 (some 14), mk 3 1 (some 100008), mk 5 2 (some 100009), mk 9 2 (some 300000), mk 12 3 (some 200021)]
+    let cases := (pairs (pairs srcs caches) [1, 2, 3, 4, 10]).map fun ((s, c), B) => (B, s, c)
+    firstDiff s!"add_missing_data(p={p})" (cases.map fun (B, s, c) => ((B, s.dataLen, c.dataLen, s.lastTime, c.lastTime), s, c))
+      (fun ((B, _), s, c) => add_missing_data s.view ⟨B, c.view, 0⟩)
+      (fun ((B, _), s, c) => (catchUpPlan s c B).map fun a => (a, ()))
   let tss : List Nat := [0, 1, 72623859790382856, 18446744073709551615, 4294967296, 281474976710656, 65535, 4294901760]
   firstDiff "meta::write" (pairs tss ((List.range 14) ++ [67, 68, 69, 131, 132, 200]))
     (fun (ts, p) => write (le8 ts) p) (fun (ts, p) => .ok (metaWrite p ts, metaSize p))
